@@ -144,7 +144,7 @@ def cases(draw):
 
 
 CHECKS = [
-    Check("roundtrip", run_roundtrip, strategy=lambda tier: cases(), quick_n=500, thorough_n=8000, fuzz_runs=8000,
+    Check("roundtrip", run_roundtrip, strategy=lambda tier: cases(), quick_n=500, thorough_n=4000, fuzz_runs=6000,
           doc="each case is saved and reopened in all 16 format/flag combinations"),
 ]
 
